@@ -402,6 +402,72 @@ func getExtGuard(p *pkgInfo) error {
 	return nil
 }
 
+// builtinTypes returns the base types listed in the init() that fills <varName> (encBuiltinRtids / decBuiltinRtids):
+// `for _, v := range []interface{}{ ... } { <varName> = append(<varName>, ...) }`. A pointer entry stands for its
+// element type (the decoder lists (*T)(nil), the encoder lists T and adds the pointer itself).
+func builtinTypes(p *pkgInfo, varName string) ([]string, error) {
+	for _, f := range p.files {
+		for _, d := range f.Decls {
+			fd, ok := d.(*ast.FuncDecl)
+			if !ok || fd.Name.Name != "init" || fd.Recv != nil || fd.Body == nil {
+				continue
+			}
+			for _, st := range fd.Body.List {
+				rs, ok := st.(*ast.RangeStmt)
+				if !ok {
+					continue
+				}
+				cl, ok := rs.X.(*ast.CompositeLit)
+				if !ok {
+					continue
+				}
+				uses := false
+				ast.Inspect(rs.Body, func(n ast.Node) bool {
+					if as, ok := n.(*ast.AssignStmt); ok && len(as.Lhs) == 1 {
+						if id, ok := as.Lhs[0].(*ast.Ident); ok && id.Name == varName {
+							uses = true
+						}
+					}
+					return true
+				})
+				if !uses {
+					continue
+				}
+				var out []string
+				for _, e := range cl.Elts {
+					tv, ok := p.info.Types[e]
+					if !ok || tv.Type == nil {
+						return nil, fmt.Errorf("%s: untyped list element at %s", varName, p.fset.Position(e.Pos()))
+					}
+					t := tv.Type
+					if pt, ok := t.(*types.Pointer); ok {
+						t = pt.Elem()
+					}
+					out = append(out, types.TypeString(t, func(pk *types.Package) string {
+						if pk.Name() == "codec" {
+							return ""
+						}
+						return pk.Name()
+					}))
+				}
+				if len(out) < 5 {
+					return nil, fmt.Errorf("%s: suspiciously short builtin list", varName)
+				}
+				return out, nil
+			}
+		}
+	}
+	return nil, fmt.Errorf("the init() that fills %s was not found", varName)
+}
+
+func coqStrings(xs []string) string {
+	q := make([]string, len(xs))
+	for i, x := range xs {
+		q[i] = "\"" + x + "\""
+	}
+	return "[" + strings.Join(q, "; ") + "]"
+}
+
 func genChoice(p *pkgInfo) (string, error) {
 	enc := findFunc(p, "helperEncDriver", "encFnLoad")
 	dec := findFunc(p, "helperDecDriver", "decFnLoad")
@@ -443,9 +509,17 @@ func genChoice(p *pkgInfo) (string, error) {
 			return "", err
 		}
 	}
+	encB, err := builtinTypes(p, "encBuiltinRtids")
+	if err != nil {
+		return "", err
+	}
+	decB, err := builtinTypes(p, "decBuiltinRtids")
+	if err != nil {
+		return "", err
+	}
 	var b strings.Builder
 	b.WriteString("(* GENERATED by harness/cmd/srcgen (choice.go) from encFnLoad (encode.go), decFnLoad (decode.go),\n   extHandle.getExt (helper.go), encoder.fn/fnNoExt, decoder.fn/fnNoExt. DO NOT EDIT. *)\n")
-	b.WriteString("From Coq Require Import Bool.\nOpen Scope bool_scope.\n\n")
+	b.WriteString("From Coq Require Import Bool List String.\nImport ListNotations.\nOpen Scope bool_scope.\nLocal Open Scope string_scope.\n\n")
 	b.WriteString("Record flags := mkflags {\n")
 	all := append(append([]string{}, choiceParams...), choiceFlags...)
 	for i, f := range all {
@@ -462,5 +536,8 @@ func genChoice(p *pkgInfo) (string, error) {
 	b.WriteString("Definition dec_choice (f : flags) : mech * bool :=\n" + ds + ".\n\n")
 	b.WriteString("(* the checkExt argument passed by encoder.fn, encoder.fnNoExt, decoder.fn, decoder.fnNoExt *)\n")
 	b.WriteString(cs.String())
+	b.WriteString("\n(* the types coded by the builtin type-switch shortcut (typeInfo.flagEncBuiltin / flagDecBuiltin, si.encBuiltin /\n   si.decBuiltin): the lists in the init() of encode.base.go and decode.base.go; a pointer entry stands for its element *)\n")
+	b.WriteString("Definition enc_builtin_types : list string := " + coqStrings(encB) + ".\n")
+	b.WriteString("Definition dec_builtin_types : list string := " + coqStrings(decB) + ".\n")
 	return b.String(), nil
 }
